@@ -106,6 +106,15 @@ def initial_state(con, fn_node, mi):
         if isinstance(ty, TRow) and not (con.kind == "init" and n == "self"):
             st.assume(z3.Implies(z3.Not(smt.isgap(v.z)), smt.oid(v.z) < st.ralloc))
         st.frames[0].vars[n] = v
+    # the two console streams click.echo writes to: TextOut objects that exist on entry, different from each other
+    # (whether a parameter may alias one of them is left to the solver)
+    from .engine import console_ref
+
+    so, se = console_ref("stdout"), console_ref("stderr")
+    st.assume(z3.And(so >= 1, so < st.alloc, se >= 1, se < st.alloc, so != se))
+    if "TextOut" in CLASSES:
+        cm = class_map(st)
+        st.assume(z3.And(cm[so] == CLASSES["TextOut"]["id"], cm[se] == CLASSES["TextOut"]["id"]))
     return st, names
 
 
